@@ -265,7 +265,13 @@ func c20WalkAll(c *fw.Ctx, e *Env, ctx sdk.Context) {
 	ek, wk, bk, sk := L.App.EnterpriseKeeper, L.App.WrkchainKeeper, L.App.BeaconKeeper, L.App.StreamKeeper
 	// ---- purchase orders: expected from point queries over every id ever issued
 	var allPO []enttypes.EnterpriseUndPurchaseOrder
-	for id := e.L.Opts.PoStartID; id < obs.NextPO; id++ {
+	firstPO := e.L.Opts.PoStartID
+	for _, gp := range e.L.Opts.GenesisPOs { // orders the genesis document already holds
+		if gp.Id < firstPO {
+			firstPO = gp.Id
+		}
+	}
+	for id := firstPO; id < obs.NextPO; id++ {
 		res, err := ek.EnterpriseUndPurchaseOrder(g, &enttypes.QueryEnterpriseUndPurchaseOrderRequest{PurchaseOrderId: id})
 		if err != nil {
 			c.Violate("point-query-error", "PurchaseOrder", "order %d (issued) point query: %v", id, err)
@@ -328,6 +334,11 @@ func c20WalkAll(c *fw.Ctx, e *Env, ctx sdk.Context) {
 			cands = append(cands, a.Addr)
 		}
 		cands = append(cands, e.ExtraAddrs...)
+		for _, w := range L.Opts.ExtraWhitelist { // whitelisted by the genesis document
+			if a, err := sdk.AccAddressFromBech32(w); err == nil {
+				cands = append(cands, a)
+			}
+		}
 		known := 0
 		for _, a := range cands {
 			res, err := ek.Whitelisted(g, &enttypes.QueryWhitelistedRequest{Address: a.String()})
